@@ -2,6 +2,7 @@ package main
 
 import (
 	"fmt"
+	"go/token"
 	"sort"
 	"strings"
 
@@ -81,9 +82,53 @@ func runC01(c *Ctx) {
 	sort.Slice(wl, func(i, j int) bool { return fnKey(wl[i]) < fnKey(wl[j]) })
 	c.floor("inv-player", "writers of chip accounts", len(wl), 4)
 	var sweepers, resetters []*ssa.Function
+	inWL := map[*ssa.Function]bool{}
+	for _, w := range wl {
+		inWL[w] = true
+	}
+	tracked := func(f *ssa.Function) bool {
+		fi := ix.Info[f]
+		if fi == nil {
+			return false
+		}
+		for _, fld := range playerChip {
+			if fi.TWrites["pokerface.PlayerState."+fld] {
+				return true
+			}
+		}
+		return fi.TWrites["pokerface.Status.CurrentRoundPot"]
+	}
 	for _, w := range wl {
 		c.touch(fnKey(w))
+		// a package-private helper all of whose callers are writers themselves is analysed where it
+		// is used (inlined into those callers), not on its own
+		if !token.IsExported(w.Name()) && w.Parent() == nil {
+			callers := ix.Callers(w)
+			all := len(callers) > 0
+			for _, cl := range callers {
+				if !inWL[cl] || !privateHelper(cl, w) {
+					all = false
+				}
+			}
+			if all && len(findLoops(w)) == 0 {
+				c.ok("inv-player", fnKey(w), p.FnPos(w), "private helper of "+fnNames(callers)+": analysed inlined into its callers")
+				continue
+			}
+		}
 		s := newSumm(p, 0)
+		owner := w
+		s.HelperInline = func(f *ssa.Function) bool {
+			if !privateHelper(owner, f) || !tracked(f) || len(findLoops(f)) > 0 {
+				return false
+			}
+			// only helpers used by writers alone (see above)
+			for _, cl := range ix.Callers(f) {
+				if !inWL[cl] {
+					return false
+				}
+			}
+			return true
+		}
 		fpaths, cut := s.Function(w)
 		if cut != "" {
 			c.undecided("inv-player", fnKey(w), p.FnPos(w), "summary cut: "+cut)
